@@ -1,5 +1,5 @@
 from pyvc.verify import (contract, Contract, Exc, INT_, BOOL_, STR_, BYTES_, JSON_, NONE_, LIST, CONST, OBJ, ONEOF,
-                         REPO, OPAQUE, RAW, TUPLE, ENUM, OBJSEQ, native)
+                         REPO, OPAQUE, RAW, TUPLE, ENUM, OBJSEQ, PYLIST, PYDICT, JSONOV, native, RecSpec)
 from spec.device import *     # noqa: ghost schema, classify, ghost_step ...
 
 DONGLE = OBJ("ledger.hsm2dongle:HSM2Dongle", logger=OPAQUE("logger"), debug=BOOL_,
@@ -36,3 +36,43 @@ def apdu_of(command, data):
 
 def last_apdu(g):
     return g.log[len(g.log) - 1]
+
+
+# ---- BIP32 paths: class invariant = exactly 5 elements (the only constructor call sites use the default
+# nelements=5), each index in [0, 2^32)
+ELEM = OBJ("comm.bip32:BIP32Element", _index=INT_)
+PATH = OBJ("comm.bip32:BIP32Path", _elements=PYLIST(ELEM, ELEM, ELEM, ELEM, ELEM))
+
+
+def idx(p, k):
+    return field(field(p, "_elements")[k], "_index")
+
+
+def path_wf(p):
+    return (0 <= idx(p, 0) and idx(p, 0) < 4294967296 and 0 <= idx(p, 1) and idx(p, 1) < 4294967296
+            and 0 <= idx(p, 2) and idx(p, 2) < 4294967296 and 0 <= idx(p, 3) and idx(p, 3) < 4294967296
+            and 0 <= idx(p, 4) and idx(p, 4) < 4294967296)
+
+
+def pathbin(p):
+    """what the firmware parses: element count, then each index as 4 bytes little-endian"""
+    return (bytes([5]) + le_bytes(idx(p, 0), 4) + le_bytes(idx(p, 1), 4) + le_bytes(idx(p, 2), 4)
+            + le_bytes(idx(p, 3), 4) + le_bytes(idx(p, 4), 4))
+
+
+# ---- DER signatures as the device returns them (0x30 | 0x31 quirk documented in ledger/signature.py)
+def der_ok(b):
+    return (len(b) >= 2 and (b[0] == 0x30 or b[0] == 0x31) and len(b) - 2 >= b[1]
+            and len(b) - 2 >= 2 and b[2] == 0x02 and len(b) - 4 >= b[3]
+            and len(b) - 4 - b[3] >= 2 and b[4 + b[3]] == 0x02 and len(b) - 6 - b[3] >= b[5 + b[3]])
+
+
+def der_r(b):
+    return b[4:4 + b[3]]
+
+
+def der_s(b):
+    return b[6 + b[3]:6 + b[3] + b[5 + b[3]]]
+
+
+SIG = OBJ("ledger.signature:HSM2DongleSignature", _r=STR_, _s=STR_)
